@@ -112,16 +112,22 @@ impl Scenario for ReshardScenario {
             // transport fault: one chunk of one shard-to-shard channel arrives cut short by 1..7 bytes (records are 8 bytes)
             let o = r.below(shards);
             let d = (o + 1 + r.below(shards - 1)) % shards;
-            json!({"helper": r.below(3), "shard": d, "origin": o, "kind": "transport", "pos": 0, "cut": r.range(1, 7)})
+            // ... or with its first record replaced by bytes that do not decode
+            json!({"helper": r.below(3), "shard": d, "origin": o, "kind": "transport", "pos": 0, "cut": r.range(1, 7), "corrupt": r.chance(1, 2)})
         } else {
             Value::Null
         };
+        // caller error: one record is sent to a shard that does not exist - must be loud, never silently kept or dropped
+        let bad_pick = if fault.is_null() && picker == "table" && r.chance(1, 12) {
+            let o = r.below(shards);
+            if lens[o] > 0 { let i = r.below(lens[o]); picks[o][i] = shards + r.below(2); json!([o, i]) } else { Value::Null }
+        } else { Value::Null };
         let hint_extra = if api == "iter" { 0 } else { r.pick(&[0usize, 0, 1, 7]) };
         let total: usize = lens.iter().sum();
         let est = 400 + total as u64 * 60 * 3;
         let mut p = json!({"shards": shards, "picker": picker, "api": api, "lens": lens, "picks": picks, "fault": fault,
             "hint_extra": hint_extra, "pend_mask": if api == "iter" { 0 } else { r.next_u64() & r.next_u64() & 0xffff_ffff },
-            "knobs": draw_knobs(&mut r)});
+            "knobs": draw_knobs(&mut r), "bad_pick": bad_pick});
         p["sched"] = SchedSpec::draw(&mut r, est, 1_500_000);
         p
     }
@@ -153,7 +159,10 @@ macro_rules! make_exec {
     let fault = p["fault"].clone();
     let hint_extra = pu(p, "hint_extra");
     let pend_mask = pu64(p, "pend_mask");
-    if lens.len() != shards || picks.len() != shards || (0..shards).any(|o| picks[o].len() < lens[o] || picks[o].iter().any(|d| *d >= shards))
+    let bad_pick: Option<(usize, usize)> = p.get("bad_pick").and_then(Value::as_array).filter(|a| a.len() == 2).map(|a| (a[0].as_u64().unwrap_or(0) as usize, a[1].as_u64().unwrap_or(0) as usize));
+    if lens.len() != shards || picks.len() != shards
+        || (0..shards).any(|o| picks[o].len() < lens[o] || picks[o].iter().enumerate().any(|(i, d)| (*d >= shards) != (bad_pick == Some((o, i)) && i < lens[o])))
+        || (bad_pick.is_some() && (!fault.is_null() || picker == "prss"))
         || !["iter", "try_stream", "aad"].contains(&api.as_str())
         || (!fault.is_null() && ps(&fault, "kind") != "transport" && (api == "iter" || pu(&fault, "shard") >= shards || pu(&fault, "helper") > 2 || pu(&fault, "pos") > lens[pu(&fault, "shard")]))
         || (!fault.is_null() && ps(&fault, "kind") == "transport" && (pu(&fault, "shard") >= shards || pu(&fault, "origin") >= shards || pu(&fault, "origin") == pu(&fault, "shard") || pu(&fault, "helper") > 2 || pu(&fault, "cut") == 0 || pu(&fault, "cut") > 7))
@@ -173,7 +182,7 @@ macro_rules! make_exec {
     let transport_site = if !fault.is_null() && ps(&fault, "kind") == "transport" {
         Some(crate::verif::faults::Site {
             chan: crate::verif::faults::ChanKey { kind: "shard", src: pu(&fault, "origin"), dst: pu(&fault, "shard"), shard: pu(&fault, "helper"), gate: "*".into() },
-            chunk: 0, offset: 0, pattern: format!("trunc:{}", pu(&fault, "cut")), stream_off: None,
+            chunk: 0, offset: 0, pattern: if fault.get("corrupt").and_then(Value::as_bool) == Some(true) { "poison:8".into() } else { format!("trunc:{}", pu(&fault, "cut")) }, stream_off: None,
         })
     } else {
         None
@@ -252,6 +261,18 @@ macro_rules! make_exec {
         }
         v
     };
+    if let Some((o, i)) = bad_pick {
+        // a record addressed to a shard that does not exist: any loud outcome is fine, a clean completion is not
+        let all_ok = (0..3).all(|h| (0..shards).all(|d| matches!(l.get(&(h, d)), Some(Ok(_)))));
+        if outcome.class == "finished" && all_ok {
+            let held: usize = (0..shards).map(|d| l.get(&(0, d)).and_then(|r| r.as_ref().ok()).map_or(0, Vec::len)).sum();
+            return RunRes::violation("reshard_out_of_range_pick_accepted",
+                format!("record {i} of shard {o} was addressed to shard {} of {shards}; every node returned Ok ({held} of {total} records held on helper 1)", picks[o][i]), shape, Some(outcome));
+        }
+        let mut res = RunRes::pass(shape, true, Some(outcome));
+        res.probe("out_of_range_pick_was_loud", 1);
+        return res;
+    }
     let transport_fired = !tamper.log.lock().unwrap().fired.is_empty();
     let is_transport = !fault.is_null() && ps(&fault, "kind") == "transport";
     // a transport fault that never met a chunk (no record travelled on that channel) is no fault at all
@@ -316,7 +337,7 @@ macro_rules! make_exec {
     res.probe("empty_input_shards", lens.iter().filter(|n| **n == 0).count() as u64);
     res.probe("input_faults", u64::from(faulty.is_some()));
     if is_transport {
-        res.fault("F3_transport_chunk_cut_short", u64::from(transport_fired));
+        res.fault(if fault.get("corrupt").and_then(Value::as_bool) == Some(true) { "F3_transport_record_undecodable" } else { "F3_transport_chunk_cut_short" }, u64::from(transport_fired));
     } else if faulty.is_some() {
         res.fault("F6_input_stream_error", 1);
     }
